@@ -347,3 +347,5 @@ func FsFaultOps(ops string) {}
 // 0755 instead of an arbitrary file (engine only; cuts forks that do not
 // matter for the property at hand).
 func FsStatDirs(on bool) {}
+
+func I16(name string) int16 { return int16(U16(name)) }
